@@ -235,14 +235,17 @@ class ObjectTemplate(base.HyperValue, utils.Formattable):
         # NOTE(daiyip): Special handle the case when the root value needs to be
         # replaced. For example: `template(oneof([0, 1])).decode(geno.DNA(0))`
         # should return 0 instead of rebinding the root `OneOf` object.
+        # The decoded value may still be a part of the template (e.g. a
+        # constant candidate), thus it is not considered as copied.
         value = rebind_dict['']
+        copied = False
       else:
         # NOTE(daiyip): Instead of deep copying the whole object (with hyper
         # primitives), we can cherry-pick only non-hyper parts. Unless we saw
         # performance issues it's not worthy to optimize this.
         value = symbolic.clone(self._value, deep=True)
         value.rebind(rebind_dict)
-      copied = True
+        copied = True
     else:
       assert self.is_constant
       value = self._value
